@@ -35,7 +35,9 @@ LEAN_MODULES = ["LunaVerif.Props.C20", "LunaVerif.Lemmas.C20CycAbs", "LunaVerif.
                 "LunaVerif.Lemmas.C20CtrlBase", "LunaVerif.Lemmas.C20CtrlDefs", "LunaVerif.Lemmas.C20CtrlBlk",
                 "LunaVerif.Lemmas.C20CtrlContract", "LunaVerif.Lemmas.C20CtrlExamples",
                 # ... wired into the closed device as the rest slot: restHolds becomes a theorem
-                "LunaVerif.Lemmas.C20DeviceCtl", "LunaVerif.Lemmas.C20DeviceCtlExamples"]
+                "LunaVerif.Lemmas.C20DeviceCtl", "LunaVerif.Lemmas.C20DeviceCtlExamples",
+                # ... and with the setup decoder's FSM + deserializer (C06 decStep / deserStep) on the shared tokenizer/timer/CRC
+                "LunaVerif.Lemmas.C20DeviceDec", "LunaVerif.Lemmas.C20DeviceDecExamples"]
 DRIVER = "Driver/C20.lean"
 REQUIRED_THEOREMS = ["mux_single_source", "generator_idle_unless_stream_valid", "handshake_idle_unless_requested",
                      "every_response_is_handshake_or_crc_valid_data", "response_only_after_addressed_token_or_data",
@@ -55,7 +57,10 @@ REQUIRED_THEOREMS = ["mux_single_source", "generator_idle_unless_stream_valid", 
                      "ctl_step", "ctrl_keeps_contract", "ctrl_keeps_contract_run",
                      # closed device with the control endpoint as the rest slot
                      "ctl_env", "joint_step", "restHolds_of_ctl", "ctl_closed_tx_never_during_rx",
-                     "ctl_closed_transmitters_exclusive", "ctl_closed_tx_only_in_response_window"]
+                     "ctl_closed_transmitters_exclusive", "ctl_closed_tx_only_in_response_window",
+                     # setup decoder FSM + deserializer composed in
+                     "deser_new", "dec_regs", "decHolds_of_dec", "dec_closed_tx_never_during_rx",
+                     "dec_closed_transmitters_exclusive", "dec_closed_tx_only_in_response_window"]
 RULE = ("cases = 'mux' (number of inputs x random valid/data patterns, one-hot and overlapping) and 'full' (descriptor set, "
         "endpoint set {bulk IN, bulk OUT, status}, extra handlers) x adaptive LegalHost script (control transfers, bulk IN "
         "with lost/corrupted handshakes and retries, bulk OUT with retransmissions / overflow / PING, status polls, "
@@ -84,6 +89,12 @@ ASSUMPTIONS = dev_ctl.ASSUMPTIONS + [
     "no host ACK forwarded to the request handlers and setup.type unchanged; the decoder's timer.start only in the cycle "
     "after a reception ended; the handler's start_position fits position_in_stream when the descriptor handler leaves "
     "IDLE (the host does not ask for more data after the short packet); the reset sequencer does not transmit",
+    "closed device with control endpoint AND setup decoder FSM + deserializer (dec_closed_tx_never_during_rx; "
+    "Lemmas/C20DeviceDec.lean): as the previous item, with decHolds' instead of decHolds: the timer.start clause and the "
+    "setup.type clause are proved; still assumed per cycle: the decoder's ack only together with the receiver's "
+    "ready_for_response while the tokenizer shows SETUP, received only while the tokenizer shows SETUP, no received and no "
+    "forwarded host ACK while the control slot is armed or sending, the start_position clause, reset sequencer silent; "
+    "full speed (hs = false) in the evaluated example",
 ]
 PARTIAL = ("Proved: the transaction-level theorems for every state and event of the event-level model (tied to the real device "
            "event by event), and at the cycle level 'tx_valid implies not rx_active', 'tx_valid only inside a response window', "
@@ -94,8 +105,9 @@ PARTIAL = ("Proved: the transaction-level theorems for every state and event of 
            "cycle-level models of USBStreamInEndpoint/USBInTransferManager (C11), USBStreamOutEndpoint (C13) and "
            "USBSignalInEndpoint (C17) through the endpoint multiplexer's OR (envOk_of_endpoints, closed_tx_never_during_rx; each "
            "endpoint model keeps a per-endpoint slot contract for arbitrary inputs, the contract is closed under the "
-           "multiplexer's merge, and contract + packet-layer invariant imply envOk). NOT proved: (a) the CONTROL endpoint's "
-           "share of envOk: the control endpoint (setup decoder + request handlers + descriptor/serializer streams) enters the "
+           "multiplexer's merge, and contract + packet-layer invariant imply envOk). NOT (fully) proved: (a) the CONTROL "
+           "endpoint's share of envOk is proved up to the setup decoder's timing only. In Lemmas/C20Device.lean the control "
+           "endpoint (setup decoder + request handlers + descriptor/serializer streams) enters the "
            "closed device as the 'rest slot', an arbitrary driver ASSUMED to keep the same slot contract (restHolds: request "
            "only at / at most L+1 cycles after a ready_for_response pulse not addressed to the three modelled endpoints, one "
            "per pulse, never handshake + data, tx.valid held until last is taken, first/last only with valid, timer.start only "
@@ -116,14 +128,22 @@ PARTIAL = ("Proved: the transaction-level theorems for every state and event of 
            "way) and decOk, so restHolds is now a THEOREM (restHolds_of_ctl) and the three closed-device theorems hold for "
            "the device WITH its control endpoint under hostHolds + decHolds (ctl_closed_tx_never_during_rx, "
            "ctl_closed_transmitters_exclusive, ctl_closed_tx_only_in_response_window; a kernel-evaluated control read through "
-           "the whole device reproduces the reference ACK and DATA1+CRC16 bytes). STILL ASSUMED (decHolds, see ASSUMPTIONS): "
-           "the setup decoder (received, ack, SetupPacket registers, its timer.start), the handshake detector "
-           "(handshakes_in.ack) and the reset sequencer are inputs of that device - the decoder's composition with the shared "
-           "tokenizer/timer/CRC (decoder ACK = receiver's ready_for_response after a SETUP token, received / register "
-           "changes only at the end of a SETUP data packet, i.e. never inside an open response window, timer.start = "
-           "new_packet one cycle after a reception) is NOT proved (it is what the slot-contract columns of the 'cyc' cases "
-           "check on the real control endpoint in every co-simulated cycle), nor is 'no host ACK inside an open response "
-           "window' (the handshake detector is not part of DevCyc); the start_position clause is a legal-host assumption; "
+           "the whole device reproduces the reference ACK and DATA1+CRC16 bytes). "
+           "The setup decoder's FSM and its deserializer (C06 decStep / deserStep) are composed in on the shared tokenizer, "
+           "timer and CRC (Lemmas/C20DeviceDec.lean; received / ack / SetupPacket registers / timer.start are no longer "
+           "inputs; a kernel-evaluated control read with NOTHING fed by hand shows timer.start in the cycle after the "
+           "reception, received one cycle later, the decoder's ACK at the receiver's pulse, and the reference ACK + "
+           "DATA1/CRC16 bytes on the wire), and two clauses of decHolds are proved for every history (decHolds_of_dec: the "
+           "decoder's timer.start only in the cycle after a reception ended = E4; setup.type changes only together with the "
+           "received strobe), giving dec_closed_tx_never_during_rx / _transmitters_exclusive / _tx_only_in_response_window "
+           "under hostHolds + decHolds'. STILL ASSUMED (decHolds', see ASSUMPTIONS) and NOT proved: the decoder's ACK "
+           "coincides with the receiver's ready_for_response while the tokenizer still shows SETUP; received only while the "
+           "tokenizer shows SETUP; no received inside an open response window (these three need the joint invariant "
+           "'decoder in DELAY <=> receiver in its inter-packet DELAY', the lock-step of the deserializer with the token "
+           "detector, and the equality of the deserializer's and the receiver's CRC16 checks); no host ACK "
+           "(handshakes_in.ack) inside an open response window (the handshake detector is not part of DevCyc); the "
+           "start_position clause is a legal-host assumption; reset sequencer silent. All of them are what the "
+           "slot-contract columns of the 'cyc' cases check on the real control endpoint in every co-simulated cycle; "
            "the closed-loop "
            "WIRING of the endpoint models (Lemmas/C20Device.lean, read off stream.py/status.py/endpoint.py) is not itself "
            "co-simulated as a whole - each "
